@@ -59,7 +59,7 @@ def classify(tr, l):
     return key, e
 
 
-def validate(prop, traces, rep, ev, spec="TraceWriteSession", cfg="TraceWriteSession.cfg", classify_fn=classify, batch=3000):
+def validate(prop, traces, rep, ev, spec="TraceWriteSession", cfg="TraceWriteSession.cfg", classify_fn=classify, batch=3000, origins=None):
     acc, results = tlc.validate_traces(spec, cfg, traces, extra_env={"EXPLAIN": "0"}, workers=8, batch=batch)
     for r in results:
         ev.add_tlc(r, spec)
@@ -71,6 +71,7 @@ def validate(prop, traces, rep, ev, spec="TraceWriteSession", cfg="TraceWriteSes
         return
     d = scratch("bad")
     sub = [traces[i] for i in bad[:60]]
+    suborig = [origins[i] if origins else None for i in bad[:60]]
     p = os.path.join(d, "bad.json")
     tlc.write_json(p, sub)
     rr = tlc.run(spec, cfg, workers=1, env={"TRACE_FILE": p, "EXPLAIN": "1"})
@@ -81,7 +82,7 @@ def validate(prop, traces, rep, ev, spec="TraceWriteSession", cfg="TraceWriteSes
         l = reach.get(j + 1, 1)
         key, e = classify_fn(tr, l)
         rep.violation(key, f"{spec} rejects event {l} ({e.get('e')}) of a recorded trace: {json.dumps(e)[:300]}",
-                      {"trace": tr, "rejected_at": l})
+                      {"trace": tr, "rejected_at": l, "origin": suborig[j]})
     if len(bad) > 60:
         print(f"  ... {len(bad) - 60} more rejected traces not explained")
     shutil.rmtree(d, ignore_errors=True)
@@ -128,11 +129,12 @@ def run(tier, rep, ev):
                 "filters_by_session": {s: R.choice([None, [{"id": 0x33}], [{"id": 0x21, "preset": 1}], [{"id": 0x32}]]) for s in range(1, 4)}}
         cases.append((h, opts, os.path.join(base, f"r{i}")))
     outs = sandbox.run_cases(execute, cases, timeout=60, nproc=16)
-    traces = []
+    traces, origins = [], []
     for (h, opts, _), o in zip(cases, outs):
         ev.case(json.dumps(h), nontrivial=any(x.get("fault", "none") != "none" for x in h))
         if o.status == "ok":
             traces.append(o.value)
+            origins.append({"hist": h, "opts": opts})
         elif o.status == "hang":
             rep.violation("hang-in-write-session", f"history did not finish in 60 s: {o.detail[-300:]}", {"hist": h, "opts": opts})
         else:
@@ -141,7 +143,7 @@ def run(tier, rep, ev):
     ev.sample({"history": hists[len(hists) // 2]})
     if traces:
         ev.sample({"trace": traces[len(traces) // 2]})
-    validate("C15", traces, rep, ev)
+    validate("C15", traces, rep, ev, origins=origins)
     ev.cov["exhaustive"] = True
     ev.cov["rule"] = ("all histories of <=3 (quick) / <=4 (thorough) calls x {writestr,writef,write} x 1 fault at each step from TLC, "
                       f"2-session histories of <=2 calls, {nrand} random histories of <=3 sessions x <=5 calls x <=2 faults; "
@@ -152,7 +154,15 @@ def run(tier, rep, ev):
 
 def replay(path, rep, ev):
     py7zr = import_py7zr()
-    r = json.load(open(path))["replay"]
+    from ..common import unhex
+
+    r = unhex(json.load(open(path))["replay"])
+    if "origin" in r and r["origin"]:
+        r = r["origin"]
+        if "base" in r.get("opts", {}):
+            b = r["opts"]["base"]
+            r["opts"]["base"] = (b[0], [tuple(x) for x in b[1]], {int(k): v for k, v in b[2].items()},
+                                 {tuple(int(t) for t in k.strip("()").split(",")): v for k, v in b[3].items()})
     if "hist" in r:
         print(json.dumps(wsession.run_history(py7zr, r["hist"], scratch("rp"), **r.get("opts", {})), indent=1))
     else:
